@@ -23,11 +23,14 @@
 (* A second configuration (constant operator Special) puts errors and text *)
 (* at chosen positions.                                                    *)
 (*                                                                         *)
-(* The machine enumerates, by growing one extent at a time, every          *)
-(* (operand shape, operand shape, target shape) triple up to Max x Max for *)
-(* a binary operator and every (argument kinds, array shape, target shape) *)
-(* for a function of up to MaxArgs arguments that are equally shaped       *)
-(* arrays or scalars.  Every state is exported as a vector for the code.   *)
+(* The machine is a sheet with one array formula: its state is the input   *)
+(* (form of the formula, operand shapes, target shape) together with what  *)
+(* the formula yields (res) and what the target's cells show (cells).  By  *)
+(* growing one extent at a time it reaches every (operand shape, operand   *)
+(* shape, target shape) triple up to Max x Max for a binary operator and   *)
+(* every (argument kinds, array shape, target shape) for a function of up  *)
+(* to MaxArgs arguments that are equally shaped arrays or scalars.  Every  *)
+(* state is exported as a vector for the real code.                        *)
 (***************************************************************************)
 EXTENDS Naturals, Sequences, FiniteSets, TLC, Json
 
@@ -36,12 +39,16 @@ CONSTANTS Max,               \* largest extent of an operand or a target (4)
           Special(_, _, _)   \* Special(k, i, j): the non-numeric element of
                              \* operand k at (i, j), or None
 
+ASSUME MaxArgs \in 1..3 /\ Max \in 1..9       \* two decimal digits per operand
+
 VARIABLES form,    \* "op": binary operator on A (shape sa) and B (shape sb)
                    \* "fn": function whose k-th argument is kinds[k]
           kinds,   \* "fn": sequence of "A" (array of shape sa) / "S" (scalar)
           sa, sb,  \* operand shapes <<h, w>>
-          st       \* shape of the target range of the array formula
-vars == <<form, kinds, sa, sb, st>>
+          st,      \* shape of the target range of the array formula
+          res,     \* the lifted result (<<>>: shapes outside the statement)
+          cells    \* what the cells of the target range show
+vars == <<form, kinds, sa, sb, st, res, cells>>
 
 --------------------------------------------------------------------------
 (* values: tagged tuples, tag first (TLC cannot compare 1 with "x")        *)
@@ -114,10 +121,10 @@ Lift(F(_), xs) ==
 FitIdx(n, r) == IF r = 1 THEN 1 ELSE IF n <= r THEN n ELSE 0
 
 FitWith(R, t, fill) ==
-  [i \in 1..t[1] |-> [j \in 1..t[2] |->
-     LET ii == FitIdx(i, Len(R))
-         jj == FitIdx(j, Len(R[1]))
-     IN  IF ii = 0 \/ jj = 0 THEN fill ELSE R[ii][jj]]]
+  LET rh == Len(R)  rw == Len(R[1])
+  IN  [i \in 1..t[1] |-> [j \in 1..t[2] |->
+         IF FitIdx(i, rh) = 0 \/ FitIdx(j, rw) = 0 THEN fill
+         ELSE R[FitIdx(i, rh)][FitIdx(j, rw)]]]
 
 Fit(R, t) == FitWith(R, t, NA)
 
@@ -140,37 +147,43 @@ SumV(es) ==
 Ident(es) == es
 
 --------------------------------------------------------------------------
-(* the operands of the current state                                       *)
+(* the operands of a formula, as a function of the input                   *)
 
-NArgs == IF form = "op" THEN 2 ELSE Len(kinds)
+\* shapes of the operands: A and B for an operator; for a function every
+\* array argument has the one shape a, every other argument is a scalar
+ShapesOf(f, ks, a, b) ==
+  IF f = "op" THEN <<a, b>>
+  ELSE [k \in 1..Len(ks) |-> IF ks[k] = "A" THEN a ELSE Scalar]
 
-ArgShape(k) ==
-  IF form = "op" THEN (IF k = 1 THEN sa ELSE sb)
-  ELSE IF kinds[k] = "A" THEN sa ELSE Scalar
-
-ArgShapes == [k \in 1..NArgs |-> ArgShape(k)]
-
-ASSUME MaxArgs \in 1..3 /\ Max \in 1..9       \* two decimal digits per operand
 Pow100(e) == CASE e = 0 -> 1 [] e = 1 -> 100 [] e = 2 -> 10000
 
-Sym(k, i, j) == (10 * i + j) * Pow100(NArgs - k)
+\* element (i, j) of operand k of n
+ElemOf(n, k, i, j) ==
+  IF Special(k, i, j)[1] = "-" THEN Num((10 * i + j) * Pow100(n - k))
+  ELSE Special(k, i, j)
 
-Elem(k, i, j) == IF Special(k, i, j)[1] = "-" THEN Num(Sym(k, i, j))
-                 ELSE Special(k, i, j)
+ArgsOf(shs) ==
+  [k \in DOMAIN shs |->
+     [i \in 1..shs[k][1] |-> [j \in 1..shs[k][2] |-> ElemOf(Len(shs), k, i, j)]]]
 
-Arg(k)  == [i \in 1..ArgShape(k)[1] |-> [j \in 1..ArgShape(k)[2] |-> Elem(k, i, j)]]
-Args    == [k \in 1..NArgs |-> Arg(k)]
 \* the same rectangles holding their own positions instead of values
-PosArgs == [k \in 1..NArgs |->
-             [i \in 1..ArgShape(k)[1] |-> [j \in 1..ArgShape(k)[2] |-> <<i, j>>]]]
+PosArgsOf(shs) ==
+  [k \in DOMAIN shs |-> [i \in 1..shs[k][1] |-> [j \in 1..shs[k][2] |-> <<i, j>>]]]
 
-Defined == Broadcastable(ArgShapes)   \* evaluate the next three only if Defined
-RShape  == BShape(ArgShapes)
-Result  == Lift(SumV, Args)
-Cells   == Fit(Result, st)
+\* what the formula yields and what the target shows; <<>> marks operand
+\* shapes that do not broadcast (outside the statement: nothing is claimed)
+ResultOf(shs) == IF Broadcastable(shs) THEN Lift(SumV, ArgsOf(shs)) ELSE <<>>
+CellsOf(R, t)   == IF Len(R) = 0 THEN <<>> ELSE Fit(R, t)
+
+\* ... of the current state
+ArgShapes == ShapesOf(form, kinds, sa, sb)
+NArgs     == Len(ArgShapes)
+Args      == ArgsOf(ArgShapes)
+Defined   == Broadcastable(ArgShapes)
+RShape    == BShape(ArgShapes)
 
 --------------------------------------------------------------------------
-(* the enumerator machine                                                  *)
+(* the machine                                                             *)
 
 KindVectors == UNION {[1..n -> {"A", "S"}] : n \in 1..MaxArgs}
 HasArray    == form = "op" \/ \E p \in DOMAIN kinds : kinds[p] = "A"
@@ -178,15 +191,24 @@ HasArray    == form = "op" \/ \E p \in DOMAIN kinds : kinds[p] = "A"
 Init == /\ form \in {"op", "fn"}
         /\ kinds \in (IF form = "op" THEN {<<>>} ELSE KindVectors)
         /\ sa = Scalar /\ sb = Scalar /\ st = Scalar
+        /\ res = ResultOf(ShapesOf(form, kinds, sa, sb))
+        /\ cells = CellsOf(res, st)
 
 Grow(s, d) == IF d = 1 THEN <<s[1] + 1, s[2]>> ELSE <<s[1], s[2] + 1>>
 
+\* the formula is recalculated whenever an operand or the target changes
+Recalc == /\ res' = ResultOf(ShapesOf(form', kinds', sa', sb'))
+          /\ cells' = CellsOf(res', st')
+
 GrowA(d) == /\ HasArray /\ sa[d] < Max
             /\ sa' = Grow(sa, d) /\ UNCHANGED <<form, kinds, sb, st>>
+            /\ Recalc
 GrowB(d) == /\ form = "op" /\ sb[d] < Max
             /\ sb' = Grow(sb, d) /\ UNCHANGED <<form, kinds, sa, st>>
+            /\ Recalc
 GrowT(d) == /\ st[d] < Max
             /\ st' = Grow(st, d) /\ UNCHANGED <<form, kinds, sa, sb>>
+            /\ Recalc
 
 TallerA == GrowA(1)
 WiderA  == GrowA(2)
@@ -207,6 +229,11 @@ TypeOK == /\ form \in {"op", "fn"}
           /\ (form = "fn" => sb = Scalar)
           /\ (~HasArray => sa = Scalar)
 
+\* res and cells are the definitions applied to the input, in every state
+Recalculated == /\ res = ResultOf(ArgShapes)
+                /\ cells = CellsOf(res, st)
+                /\ (Defined <=> Len(res) > 0)
+
 \* the per-dimension rule is the list of cases the statement names
 BroadcastCases == form = "op" => (Defined <=> NamedCase(sa, sb))
 
@@ -217,18 +244,14 @@ FnEqualOrScalar ==
                  /\ Defined
                  /\ RShape = (IF HasArray THEN sa ELSE Scalar)
 
-\* (each law binds Result / Cells once: TLC re-evaluates a definition at
-\* every mention, and that is the whole cost of this model)
-
 \* the lifted result has the broadcast shape, the fitted one the target's
 ShapeExact ==
   Defined =>
-    LET R == Result  C == Cells  rs == RShape
-    IN  /\ DOMAIN R = 1..rs[1]
-        /\ \A i \in 1..rs[1] : DOMAIN R[i] = 1..rs[2]
-        /\ DOMAIN C = 1..st[1]
-        /\ \A i \in 1..st[1] : DOMAIN C[i] = 1..st[2]
-        /\ ShapeOf(C) = st
+    /\ DOMAIN res = 1..RShape[1]
+    /\ \A i \in 1..RShape[1] : DOMAIN res[i] = 1..RShape[2]
+    /\ DOMAIN cells = 1..st[1]
+    /\ \A i \in 1..st[1] : DOMAIN cells[i] = 1..st[2]
+    /\ ShapeOf(cells) = st
 
 \* the element of operand X "at position (i, j)", case by case as the
 \* statement words it
@@ -242,73 +265,65 @@ ElemsAt(xs, i, j) == [k \in DOMAIN xs |-> At(xs[k], i, j)]
 
 Pointwise ==
   Defined =>
-    LET R == Result  rs == RShape  xs == Args
-    IN  \A i \in 1..rs[1], j \in 1..rs[2] : R[i][j] = SumV(ElemsAt(xs, i, j))
+    LET xs == Args
+    IN  \A i \in 1..RShape[1], j \in 1..RShape[2] :
+          res[i][j] = SumV(ElemsAt(xs, i, j))
 
 \* with numeric elements the sum spells the positions it was made from:
 \* operand k contributed its element (i, j), or its single row / column
 Digits(v, k) == (v \div Pow100(NArgs - k)) % 100
 PointwiseDecode ==
   Defined =>
-    LET R == Result  rs == RShape
-    IN  \A i \in 1..rs[1], j \in 1..rs[2] :
-          IsNum(R[i][j]) =>
-            \A k \in 1..NArgs :
-               LET ik == Digits(R[i][j][2], k) \div 10
-                   jk == Digits(R[i][j][2], k) % 10
-               IN  /\ ik \in {i, 1} /\ (ik # i => ArgShape(k)[1] = 1)
-                   /\ jk \in {j, 1} /\ (jk # j => ArgShape(k)[2] = 1)
+    \A i \in 1..RShape[1], j \in 1..RShape[2] :
+       IsNum(res[i][j]) =>
+         \A k \in 1..NArgs :
+            LET ik == Digits(res[i][j][2], k) \div 10
+                jk == Digits(res[i][j][2], k) % 10
+            IN  /\ ik \in {i, 1} /\ (ik # i => ArgShapes[k][1] = 1)
+                /\ jk \in {j, 1} /\ (jk # j => ArgShapes[k][2] = 1)
 
 \* a position is an error / #VALUE! exactly when the elements there say so
 PointwiseSpecial ==
   Defined =>
-    LET R == Result  rs == RShape  xs == Args
-    IN  \A i \in 1..rs[1], j \in 1..rs[2] :
+    LET xs == Args
+    IN  \A i \in 1..RShape[1], j \in 1..RShape[2] :
           LET es == ElemsAt(xs, i, j)
-          IN  /\ IsNum(R[i][j]) <=> \A k \in 1..NArgs : IsNum(es[k])
+          IN  /\ IsNum(res[i][j]) <=> \A k \in 1..NArgs : IsNum(es[k])
               /\ (\E k \in 1..NArgs : IsErr(es[k])) =>
-                    \E k \in 1..NArgs : /\ R[i][j] = es[k]
+                    \E k \in 1..NArgs : /\ res[i][j] = es[k]
                                         /\ \A l \in 1..(k - 1) : ~IsErr(es[l])
 
 \* the clauses of the statement, one by one
 NotCovered(rs, i, j) == (rs[1] > 1 /\ i > rs[1]) \/ (rs[2] > 1 /\ j > rs[2])
 
 Trimmed ==      \* where result and target overlap the cell shows the result
-  Defined =>
-    LET R == Result  C == Cells  rs == RShape
-    IN  \A i \in 1..st[1], j \in 1..st[2] :
-          (i <= rs[1] /\ j <= rs[2]) => C[i][j] = R[i][j]
+  Defined => \A i \in 1..st[1], j \in 1..st[2] :
+     (i <= RShape[1] /\ j <= RShape[2]) => cells[i][j] = res[i][j]
 Repeated ==     \* a single row fills every row, a single column every column
   Defined =>
-    LET R == Result  C == Cells  rs == RShape
-    IN  /\ rs[1] = 1 => \A i \in 1..st[1] : C[i] = C[1]
-        /\ rs[2] = 1 => \A i \in 1..st[1], j \in 1..st[2] : C[i][j] = C[i][1]
-        /\ rs = Scalar => \A i \in 1..st[1], j \in 1..st[2] : C[i][j] = R[1][1]
+    /\ RShape[1] = 1 => \A i \in 1..st[1] : cells[i] = cells[1]
+    /\ RShape[2] = 1 => \A i \in 1..st[1], j \in 1..st[2] : cells[i][j] = cells[i][1]
+    /\ RShape = Scalar => \A i \in 1..st[1], j \in 1..st[2] : cells[i][j] = res[1][1]
 Uncovered ==    \* beyond a result that is not repeated: #N/A
-  Defined =>
-    LET C == Cells  rs == RShape
-    IN  \A i \in 1..st[1], j \in 1..st[2] : NotCovered(rs, i, j) => C[i][j] = NA
+  Defined => \A i \in 1..st[1], j \in 1..st[2] :
+     NotCovered(RShape, i, j) => cells[i][j] = NA
 OnlyUncoveredNA ==  \* and #N/A nowhere else (no element is #N/A itself)
-  Defined =>
-    LET C == Cells  rs == RShape
-    IN  \A i \in 1..st[1], j \in 1..st[2] : C[i][j] = NA => NotCovered(rs, i, j)
+  Defined => \A i \in 1..st[1], j \in 1..st[2] :
+     cells[i][j] = NA => NotCovered(RShape, i, j)
 
 \* a member cell shows one element, the one at its own position
 MemberOwn ==
-  Defined =>
-    LET R == Result  C == Cells
-    IN  \A i \in 1..st[1], j \in 1..st[2] :
-          /\ Member(R, st, i, j) = C[i][j]
-          /\ Member(R, st, i, j)[1] \in {"N", "S", "E"}
+  Defined => \A i \in 1..st[1], j \in 1..st[2] :
+     /\ Member(res, st, i, j) = cells[i][j]
+     /\ cells[i][j][1] \in {"N", "S", "E"}
 
 \* what is shown already has the target's shape: fitting it again is a no-op
-FitIdempotent == Defined => LET C == Cells IN Fit(C, st) = C
+FitIdempotent == Defined => Fit(cells, st) = cells
 
 \* widening / heightening the target never changes what a member showed
 TargetGrowthStable ==
   [][ (Defined /\ sa' = sa /\ sb' = sb) =>
-        LET C == Cells  D == Cells'
-        IN  \A i \in 1..st[1], j \in 1..st[2] : D[i][j] = C[i][j] ]_vars
+        \A i \in 1..st[1], j \in 1..st[2] : cells'[i][j] = cells[i][j] ]_vars
 
 \* growing an operand along a dimension in which it was not repeated leaves
 \* the result at the old positions alone
@@ -316,13 +331,14 @@ OperandGrowthLocal ==
   [][ (Defined /\ Defined' /\ st' = st /\
          \A d \in 1..2 : /\ (sa'[d] # sa[d] => sa[d] > 1)
                          /\ (sb'[d] # sb[d] => sb[d] > 1)) =>
-        LET R == Result  Q == Result'  rs == RShape
-        IN  \A i \in 1..rs[1], j \in 1..rs[2] : Q[i][j] = R[i][j] ]_vars
+        \A i \in 1..RShape[1], j \in 1..RShape[2] : res'[i][j] = res[i][j] ]_vars
 
 --------------------------------------------------------------------------
 (* test-vector export (an "invariant" that is always TRUE and prints)      *)
+(* res: the lifted symbolic "+"; sum: what the target cells show for it;   *)
 (* src: per target cell the operand positions it is computed from (<<>>    *)
-(* for an uncovered cell); sum: the cell values for the symbolic "+".      *)
+(* for an uncovered cell), so that the harness can instantiate any other   *)
+(* operator or function and any other element values.                      *)
 
 Export ==
   PrintT(ToJson([form    |-> form,
@@ -335,7 +351,8 @@ Export ==
                  elems   |-> Args,
                  rshape  |-> IF Defined THEN RShape ELSE <<0, 0>>,
                  src     |-> IF Defined
-                             THEN FitWith(Lift(Ident, PosArgs), st, <<>>)
+                             THEN FitWith(Lift(Ident, PosArgsOf(ArgShapes)), st, <<>>)
                              ELSE <<>>,
-                 sum     |-> IF Defined THEN Cells ELSE <<>>]))
+                 res     |-> res,
+                 sum     |-> cells]))
 =============================================================================
